@@ -17,6 +17,9 @@ fn err_class(e: &ConvertError) -> &'static str {
         ConvertError::MixedQuantities { .. } => "MixedQuantities",
         ConvertError::BestUnitNotFound { .. } => "BestUnitNotFound",
         ConvertError::UnknownUnit(_) => "UnknownUnit",
+        // a variant added to the library later: the class of an error is only compared as drift
+        #[allow(unreachable_patterns)]
+        _ => "Other",
     }
 }
 
